@@ -1,5 +1,5 @@
 """C05 Pipelined responses are delivered in request order, one per request. DESIGN.md §4."""
-import random
+import random, re
 import simlib
 from simlib import Payload, G, tok, chunk_encode
 from framework import Violation
@@ -23,18 +23,22 @@ class C05(hc.PProp):
         faulty = index % 3 == 2
         plan = hc.std_plan(rng, {'cache': rng.choice(['none', 'mem', 'mem']), 'lines': ['pipeline_prefetch %d' % rng.choice([0, 1, 1, 3, 5]), 'read_timeout 15 seconds']})
         plan['faulty'] = faulty
+        if rng.random() < 0.35:
+            plan['conf']['lines'].append('half_closed_clients on')
         conns = []
         tid = 0
         urls = ['/p%d_%d' % (index, k) for k in range(4)]
         for ci in range(rng.randint(1, 3)):
-            c = {'name': 'c%d' % ci, 'start': rng.choice([0, 0, 500]), 'mode': rng.choice(['oneshot', 'oneshot', 'gaps', 'split']), 'txns': []}
+            c = {'name': 'c%d' % ci, 'start': rng.choice([0, 0, 500]), 'mode': rng.choice(['oneshot', 'oneshot', 'gaps', 'split']), 'txns': [],
+                 'halfclose': 'half_closed_clients on' in plan['conf']['lines'] and rng.random() < 0.5}
             for _ in range(rng.randint(2, 10)):
                 tid += 1
                 m = rng.choice(['GET', 'GET', 'GET', 'HEAD', 'POST'])
                 t = {'id': index * 100 + tid, 'method': m, 'size': hc.pick_size(rng, big_ok=False, max_size=40000), 'framing': rng.choice(['cl', 'cl', 'chunked']),
                      'delay': rng.choice([0, 0, 1000, 20000, 200000]), 'origin': rng.randint(0, 1), 'status': rng.choice([200, 200, 200, 404, 301]),
                      'reqbody': rng.choice([0, 5, 3000]) if m == 'POST' else 0,
-                     'url': rng.choice(urls) if (m == 'GET' and rng.random() < 0.3) else None}
+                     'url': rng.choice(urls) if (m == 'GET' and rng.random() < 0.3) else None,
+                     'expect_bad': rng.random() < 0.08}   # an Expect value squid rejects with 417 while earlier responses are still in progress
                 if faulty and rng.random() < 0.2:
                     t['fault'] = rng.choice(['stall', 'rst', 'fin'])
                 c['txns'].append(t)
@@ -63,6 +67,8 @@ class C05(hc.PProp):
                     key = ('u' + t['url'].replace('/', '').replace('_', ''))[:8].ljust(8, '0')
                 body = Payload(G(key, 0, t['size'] if not t['url'] else 777))
                 hdrs = [(b'Host', host), (b'X-Sim-Req', str(t['id']).encode())]
+                if t.get('expect_bad'):
+                    hdrs.append((b'Expect', b'sim-unsupported'))
                 reqbody = b''
                 if t['method'] == 'POST':
                     reqbody = b'r' * t['reqbody']
@@ -104,6 +110,8 @@ class C05(hc.PProp):
                 for w in wire:
                     cl.add('send %s seg whole' % tok(w))
                     cl.add('wait %d' % random.Random(len(w)).choice([0, 100, 3000]))
+            if c.get('halfclose'):
+                cl.add('shutdown')      # the client has nothing more to send but still wants every response
             for t in c['txns']:
                 cl.add('expect %s timeout 60000000' % ('response-nobody' if t['method'] == 'HEAD' else 'response'))
         return scn, expect
@@ -141,7 +149,13 @@ class C05(hc.PProp):
                 # fault-free: every request must be answered unless squid closed after an error response (Connection: close)
                 last = cv.finals[-1] if cv.finals else None
                 if not (last is not None and (hc.is_squid_error(last) or b'close' in last.tokens(b'connection'))):
-                    V.append(Violation('C05:missing-response', 'conn %d: %d of %d pipelined requests answered in a fault-free run' % (cv.conn.id, len(cv.finals), len(ids))))
+                    prefetch = int(re.search(r'pipeline_prefetch (\d+)', '\n'.join(plan['conf']['lines'])).group(1))
+                    half = cv.conn.first('PFIN') is not None
+                    cls = 'C05:missing-response'
+                    if half:
+                        # requests beyond the pipeline_prefetch window are still unparsed in squid's input buffer when the client's FIN is read
+                        cls += ':halfclosed-unparsed' if len(cv.finals) >= prefetch + 1 else ':halfclosed-parsed'
+                    V.append(Violation(cls, 'conn %d: %d of %d pipelined requests answered in a fault-free run (pipeline_prefetch %d, client half-closed: %s)' % (cv.conn.id, len(cv.finals), len(ids), prefetch, half)))
             if judged >= 2:
                 stats['pipelines_judged'] += 1; nontrivial += 1
         o.stats = stats
